@@ -44,8 +44,15 @@ static int verif_sscanf3(const char *s, int *a, int *b, int *c)
 #ifndef VERIF_REPLAY
 #define sscanf(str, fmt, a, b, c) verif_sscanf3(str, a, b, c)
 #endif
-void parsec_warning(const char *fmt, ...) { (void)fmt; }
-void parsec_output_verbose(int level, int id, const char *fmt, ...) { (void)level; (void)id; (void)fmt; }
+#define V_COVER_WARNED() do { if (g_warned > 0) V_CANARY("malformed_branch_reached"); } while (0)
+static int g_warned;      /* ghost: warnings issued (the observable that tells the "invalid specification" branch from the valid ones) */
+void parsec_warning(const char *fmt, ...) { (void)fmt; g_warned++; }
+/* parsec_warning(FMT, ...) is a macro (utils/debug.h) over parsec_output_verbose(0, 0, "%.*sW@%05d%.*s " FMT, ...): the fifth
+ * character of the format tells a warning (W) from an information (i) or a debug line */
+void parsec_output_verbose(int level, int id, const char *fmt, ...) { (void)level; (void)id; if (fmt[0] == '%' && fmt[4] == 'W' && ((fmt[15] == 'V' && fmt[17] == 'M') || (fmt[15] == 'D' && fmt[16] == 'i'))) g_warned++; }
+/* counted: "VPMAP choice ... is invalid" and "Display thread mapping requested but vpmap argument incorrect" (the 15-character prefix
+ * of the macro precedes the message); NOT counted: the over-commitment warning of the consolidation loop, which the nondeterministic
+ * hwloc_bitmap_intersects stub may trigger for any specification */
 void parsec_inform(const char *fmt, ...) { (void)fmt; }
 
 /* Contracts for the two back ends that are out of reach (externals): in the jobs that use
@@ -133,6 +140,16 @@ void h_fixed(void)
     common_pre();
     static char s[] = SPEC;
     parsec_vpmap_init(s, vin.nb_cores);
+#ifdef EXPECT_WARN   /* reachability of the intended branch.  The property demands the flat FALL-BACK for a malformed specification,
+                      * not a message: so only "a well-formed specification does not take the malformed branch" is an obligation;
+                      * for a malformed one the report is a cover goal of the harness (second canary: it must be REACHABLE that
+                      * the code reported it on the unchanged tree -- checked by the job's canary count, not a property clause) */
+#if EXPECT_WARN
+    V_COVER_WARNED();
+#else
+    V_ASSERT(g_warned == 0, "C40.init.lemma.well_formed_specification_is_not_treated_as_malformed");
+#endif
+#endif
     post_flat();
     V_CANARY("fixed");
 }
